@@ -270,6 +270,9 @@ def run(chk, prog, tier):
     chk.guard('getter table', check_getter, chk, prog, env, model)
     chk.guard('deleter', check_deleter, chk, prog, env, model)
     chk.guard('dispatch', check_dispatch, chk, prog, env, model)
+    # "on builders and on the token object handed to callbacks": the two maps are separate objects all the way down
+    from props import c10
+    chk.guard('builder/token isolation', c10.check_isolation, chk, prog, env, model, 'C15.map-isolation')
     from props import c07
     chk.guard('JSON setter flags', c07.check_loader_flags, chk, prog, model, rulename='C15.loader-flags', units=('libjwt/jwt-setget.c',),
               allow_any=False)
